@@ -32,6 +32,7 @@ from ngo.utils.ast import (
     Predicate,
     collect_ast,
     collect_binding_information_body,
+    global_vars_inside_body,
     is_conditional,
     is_predicate,
     loc2str,
@@ -200,9 +201,11 @@ class SumAggregator:
         return None
 
     @staticmethod
-    def _element_passes(elem: AST, elements: list[AST]) -> bool:
+    def _element_passes(elem: AST, elements: list[AST], global_vars: set[AST]) -> bool:
         """True if element in sum aggregate is simple enough to be replaced inside chaining"""
         if elem.terms[0].ast_type != ASTType.Variable:  # only this variable as weight is allowed
+            return False
+        if elem.terms[0] in global_vars:  # the weight is fixed from outside of the aggregate
             return False
         others = []
         for term in elem.terms[1:]:
@@ -220,12 +223,12 @@ class SumAggregator:
                 return False
         return True
 
-    def _replace_elements(self, elements: list[AST], prg: list[AST]) -> list[AST]:
+    def _replace_elements(self, elements: list[AST], prg: list[AST], global_vars: set[AST]) -> list[AST]:
         newelements = []
         for elem in elements:
             assert elem.ast_type == ASTType.BodyAggregateElement
             if elem.terms and len(elem.terms) > 0:
-                if not self._element_passes(elem, elements):
+                if not self._element_passes(elem, elements, global_vars):
                     newelements.append(elem)
                     continue
 
@@ -404,7 +407,11 @@ class SumAggregator:
                             AggregateFunction.Sum,
                             AggregateFunction.SumPlus,
                         ):
-                            newatom = atom.update(elements=self._replace_elements(atom.elements, ret))
+                            newatom = atom.update(
+                                elements=self._replace_elements(
+                                    atom.elements, ret, global_vars_inside_body(list(stm.body))
+                                )
+                            )
                             newbody.append(blit.update(atom=newatom))
                         else:
                             newbody.append(blit)
